@@ -1,6 +1,6 @@
 """C06 - freed storage is reclaimed; file size is bounded by the live set, not by history."""
 from .model import short, const_val
-from .roles import Roles, role_effects
+from .roles import free_head_components, Roles, role_effects
 from .util import (calls_to, origins, where, is_call_to, region_dominated, find_bool_split, bool_switches, leaf_origins,
                    field_stores, in_cycle, const_origin)
 from .fields import pf, fq
@@ -184,7 +184,10 @@ def check_writer(ctx, prog, R, eff, kind, fn, r_rec, piece):
                 parts.append(c)
         flat(e)
         projs = sorted(p[2][-1] for p in parts if p[0] == "call?" and p[1] == sizer.id and p[2])
-        ctx.check(len(parts) == 2 and projs == ["f:0", "f:1"], "alloc", kind + ":roundup-of-estimate",
+        from .c09 import sizer_components
+        sc = sizer_components(prog, sizer)
+        want = sorted([sc["S"][0], sc["P"][0]]) if sc else ["f:0", "f:1"]
+        ctx.check(len(parts) == 2 and projs == want, "alloc", kind + ":roundup-of-estimate",
                   "the slot size is not rounded up from exactly (size-field length + payload length) of the size estimate (argument: %s)" % k7.expr_str(e), where=where(fn, ru[0][0]))
 
 
@@ -231,7 +234,7 @@ def check_pop(ctx, prog, R, eff):
               "the list popped and the list whose head is updated are not both selected by the requested size", where=where(fn))
     ctx.check(role_o(prog, R, fn, P(sn[0][1], 1, sn[0][0]), "FREE_HEAD_READ"), "push-pop-inverse", "pop:reads-head-slot", "pop does not read the next link of the head slot", where=where(fn, sn[0][0]))
     nxt = P(hw[0][1], 2, hw[0][0])
-    ctx.check(role_o(prog, R, fn, nxt, "FREE_SIZE_NEXT") and all(x.proj[-1] == "f:1" for x in nxt), "push-pop-inverse", "pop:head-becomes-next",
+    ctx.check(role_o(prog, R, fn, nxt, "FREE_SIZE_NEXT") and all(x.proj[-1] == free_head_components(prog, R)[1] for x in nxt), "push-pop-inverse", "pop:head-becomes-next",
               "after a pop the list head is not the popped slot's next link (%s)" % nxt, where=where(fn, hw[0][0]))
     # head write only when the head was non-zero
     from .util import zero_splits
@@ -261,7 +264,7 @@ def check_large_pop(ctx, prog, R, eff):
             return False
         sides = [origins(prog, fn, a, at=o.block) for a in o.data["args"]]
         req = [bool(s) and all(x.kind == "param" and x.data == 2 for x in s) for s in sides]
-        found = [role_o(prog, R, fn, s, "R_PIECE_SIZE") or (role_o(prog, R, fn, s, "FREE_SIZE_NEXT") and all(x.proj[-1] == "f:0" for x in s)) for s in sides]
+        found = [role_o(prog, R, fn, s, "R_PIECE_SIZE") or (role_o(prog, R, fn, s, "FREE_SIZE_NEXT") and all(x.proj[-1] == free_head_components(prog, R)[0] for x in s)) for s in sides]
         return (req[0] and found[1]) or (req[1] and found[0])
     hs = find_bool_split(prog, fn, hit_pred)
     hs.sort(key=lambda sw: len(fn.dominators().get(sw["block"], ())))     # the outermost size test decides hit / miss
